@@ -27,7 +27,7 @@ Proof. destruct o; [|constructor]. constructor; [|constructor]. unfold T_CACHE_O
 Lemma update_service_qfree j v fq b : qfree (snd (update_service j v fq b)).
 Proof.
   unfold update_service. destruct (split_fq fq) as [sname stype].
-  destruct (_ || _); [constructor|]. destruct (lookup_view stype T_PTR v); [constructor|].
+  destruct (browser_not_of_interest _ _); [constructor|]. destruct (lookup_view stype T_PTR v); [constructor|].
   destruct (lookup_view fq T_SRV v); [constructor|]. cbn [snd].
   destruct (smap_find (bs_data fq) (b_services b)); [destruct (service_eqb _ _)|]; repeat constructor.
 Qed.
@@ -421,7 +421,7 @@ Definition needs_srv (b : browser) (v : view) (fq : bstr) : bool :=
 
 Lemma update_service_need j v fq b : fst (fst (update_service j v fq b)) = needs_srv b v fq.
 Proof.
-  unfold update_service, needs_srv. destruct (split_fq fq) as [sname stype].
+  unfold update_service, needs_srv. destruct (split_fq fq) as [sname stype]. rewrite not_of_interest_spec.
   destruct (_ || _); [reflexivity|]. cbn [negb andb]. destruct (lookup_view stype T_PTR v); [reflexivity|].
   destruct (lookup_view fq T_SRV v); reflexivity.
 Qed.
